@@ -4,11 +4,16 @@
    Trace level: the disconnect clauses (701/706) and the connect clauses (702/703: a connect changes nothing beyond the
    Logon an initiator sends; a Logon that resets is number 1 with the counters at 2/1) never fail on any model trace.
    Clause 708 (every transmitted Logon with ResetSeqNumFlag=Y is number 1) holds on every trace (WireProofs.v).
-   The received-reset-Logon and Logout clauses (704/705/709/710) are evaluated on every trace by c07_check (`_partial`).
+   Clauses 704 (lower NewSeqNo rejected, nothing changes: SeqResetProofs.v) and 710 (ResetOnLogout at a verified Logout:
+   LogoutResetProofs.v) hold on every trace.  Clause 709 (an accepted Logon carrying 141=Y resets the store unless it echoes
+   a reset Logon we sent on this connection) holds on every trace in which the application does not itself send a Logon
+   carrying 141=Y through SendToTarget during the handshake, and is refuted without that hypothesis (ResetEchoProofs.v).
+   Clause 705 (no reset without a cause) has no clause in c07_scan; it is stated as a predicate of its own
+   (Session/SpecCause.v: c07_cause_check) and holds on every trace (ResetCauseProofs.v).
    Clause 707 (reply to an accepted reset Logon: flag echoed as number 1; next sender number 2, or 3 when the peer's reset
    Logon is itself numbered above 1 and a ResendRequest is queued as number 2) holds on every trace (LogonProofs.v). *)
 From Coq Require Import ZArith List Bool.
-From QF Require Import Base.Bytes Session.Types Session.Model Session.Spec Session.LocalProofs Session.C01Proofs Session.FrameProofs Session.TraceProofs Session.ConnectProofs Session.WireProofs Session.LogonProofs.
+From QF Require Import Base.Bytes Session.Types Session.Model Session.Spec Session.LocalProofs Session.C01Proofs Session.FrameProofs Session.TraceProofs Session.ConnectProofs Session.WireProofs Session.LogonProofs Session.SpecCause Session.StashTypeProofs Session.SeqResetProofs Session.ResetEchoProofs Session.LogoutResetProofs Session.ResetCauseProofs.
 Import ListNotations.
 Open Scope Z_scope.
 
@@ -124,3 +129,125 @@ Example c07_reset_echo_ahead_example :
   = [(false, 30, 1, 1, 0, false, []); (true, 7, 3, 1, 1, true, [(T_LOGON, 1, Some lgp_Y)])]
   /\ c07_check lgp_cfg (lgp_trace es) = [].
 Proof. exact lgp_ahead_example. Qed.
+
+(* ---- clause 704: a SequenceReset can only move the expected number forward ---- *)
+(* STEP: from any plain in-session state with the outbound channel open and nothing queued, for every SequenceReset m
+   (GapFillFlag absent, N or Y -- not malformed) that passes the header checks, the validator and the application, whose
+   NewSeqNo n is below the expected number (and, for a gap fill, whose own MsgSeqNum is the expected number): the expected
+   number is unchanged, the state stays in session, and exactly one message is written, a Reject. *)
+Theorem c07_low_sequence_reset_step : forall s m n,
+  s_st s = SInSession -> s_out_open s = true -> s_to_send s = [] ->
+  mi_type m = T_SEQRESET -> mi_newseq m = FVal n -> n < s_tgt s -> mi_gapfill m <> FBad ->
+  hdr_ok (s_cfg s) m -> mi_valid m = VAccept -> mi_app m = VAccept ->
+  (is_gapfill m = true -> mi_seq m = FVal (s_tgt s)) ->
+  let s' := step s (EIncoming m) in
+  s_tgt s' = s_tgt s /\ s_st s' = SInSession /\ s_snd s' = s_snd s + 1
+  /\ exists rj, rev (s_wire s') = [rj] /\ o_type rj = T_REJECT.
+Proof. exact step_sequence_reset_low. Qed.
+
+(* TRACE LEVEL: clause 704 of c07_check never fails, for every configuration and every event list. *)
+Theorem c07_low_sequence_reset_holds_on_every_trace : forall c es,
+  free_of [704] (c07_check c (combine es (map obs_of (run_trace es (init_sess c))))) = true.
+Proof. exact c07_low_sequence_reset_never_fails. Qed.
+
+(* non-vacuity: expected number 4; a SequenceReset-Reset with NewSeqNo 2 and a GapFill (numbered 4) with NewSeqNo 3 are each
+   answered by one Reject and leave the expected number at 4 *)
+Example c07_low_sequence_reset_example :
+  map (fun o => (ob_st o, ob_tgt o, wire_types (ob_wire o))) (map obs_of (run_trace srx_trace (init_sess srx_cfg)))
+  = [(ShLogon, 1, []); (ShInSession, 2, [T_LOGON]); (ShInSession, 3, []); (ShInSession, 4, []);
+     (ShInSession, 4, [T_REJECT]); (ShInSession, 4, [T_REJECT])]
+  /\ c07_check srx_cfg (combine srx_trace (map obs_of (run_trace srx_trace (init_sess srx_cfg)))) = [].
+Proof. exact srx_trace_rejects. Qed.
+
+(* ---- clause 710: ResetOnLogout ---- *)
+(* STEP: in every state whose stash holds only sequence-gated messages and gap fills (every reachable one: invariant TS), with
+   nothing buffered inbound, logged on (in session, recovering, test request pending) or in the logout state, with
+   ResetOnLogout: if processing a Logout m that the application accepts hands a Logout to FromAdmin, both counters are 1
+   afterwards and the store was reset in that event -- whatever m's MsgSeqNum. *)
+Theorem c07_verified_logout_resets_step : forall s m,
+  TS s -> s_in_buf s = [] -> (is_logged_on (s_st s) = true \/ s_st s = SLogout) ->
+  c_reset_on_logout (s_cfg s) = true -> mi_type m = T_LOGOUT -> mi_app m = VAccept ->
+  let s' := step s (EIncoming m) in
+  (exists x, In x (s_cbs s') /\ is_logout_fromadmin x = true) ->
+  s_snd s' = 1 /\ s_tgt s' = 1 /\ In CbStoreReset (s_cbs s').
+Proof. exact step_logout_resets. Qed.
+
+(* TRACE LEVEL: clause 710 of c07_check never fails, for every configuration and every event list. *)
+Theorem c07_verified_logout_resets_on_every_trace : forall c es,
+  free_of [710] (c07_check c (combine es (map obs_of (run_trace es (init_sess c))))) = true.
+Proof. exact c07_verified_logout_resets. Qed.
+
+(* non-vacuity: ResetOnLogout; a Logout numbered too high resets both counters in the plain state, and in the
+   "test request pending while recovering" state *)
+Example c07_verified_logout_resets_example :
+  map (fun o => (ob_st (snd o), ob_snd (snd o), ob_tgt (snd o), has_reset (ob_cbs (snd o)))) (lox_run lox_plain)
+  = [(ShLogon, 1, 1, false); (ShInSession, 2, 2, false); (ShLatent, 1, 1, true)]
+  /\ map (fun o => (sh_is_pending (ob_st (snd o)), sh_is_resend (ob_st (snd o)), ob_snd (snd o), ob_tgt (snd o), has_reset (ob_cbs (snd o))))
+         (lox_run lox_pending)
+     = [(false, false, 1, 1, false); (false, false, 2, 2, false); (false, true, 3, 2, false); (true, true, 4, 2, false);
+        (false, false, 1, 1, true)]
+  /\ c07_check lox_cfg (lox_run lox_plain) = [] /\ c07_check lox_cfg (lox_run lox_pending) = [].
+Proof. exact lox_traces_reset. Qed.
+
+(* ---- clause 709: a received reset Logon resets the store unless it echoes ours ---- *)
+(* STEP: in the logon state with nothing buffered, if the engine's sentReset mark is clear, an accepted (OnLogon) Logon
+   carrying ResetSeqNumFlag=Y resets the store in that event. *)
+Theorem c07_received_reset_logon_resets_step : forall s m,
+  s_st s = SLogon -> s_in_buf s = [] -> reset_flag m = true -> s_sent_reset s = false ->
+  In CbOnLogon (s_cbs (step s (EIncoming m))) -> In CbStoreReset (s_cbs (step s (EIncoming m))).
+Proof. exact step_logon_reset_resets. Qed.
+
+(* TRACE LEVEL: clause 709 never fails on a trace in which the application sends no Logon carrying 141=Y through
+   SendToTarget while the session is in the logon state (`handshake_clean`: the predicate reads "we sent a reset Logon" from
+   the wire, the engine marks it when the Logon is queued; they agree unless such a Logon is queued and never written). *)
+Theorem c07_received_reset_logon_resets_on_clean_traces : forall c es, handshake_clean es (init_sess c) ->
+  free_of [709] (c07_check c (combine es (map obs_of (run_trace es (init_sess c))))) = true.
+Proof. exact c07_received_reset_logon_resets. Qed.
+
+(* ... in particular when the application never sends such a Logon at all *)
+Theorem c07_received_reset_logon_resets_without_app_logon : forall c es, Forall no_app_reset_logon es ->
+  free_of [709] (c07_check c (combine es (map obs_of (run_trace es (init_sess c))))) = true.
+Proof. exact c07_received_reset_logon_resets_plain. Qed.
+
+(* the hypothesis is satisfiable and the guard fires: an initiator that sent a plain Logon receives a Logon with 141=Y *)
+Example c07_received_reset_logon_example :
+  Forall no_app_reset_logon rex_clean_trace
+  /\ map (fun o => (ob_st (snd o), ob_snd (snd o), ob_tgt (snd o), has_reset (ob_cbs (snd o)),
+                    existsb (fun x => match x with CbOnLogon => true | _ => false end) (ob_cbs (snd o))))
+         (rex_run (rex_cfg Initiator) rex_clean_trace)
+     = [(ShLogon, 2, 1, false, false); (ShInSession, 1, 2, true, true)]
+  /\ c07_check (rex_cfg Initiator) (rex_run (rex_cfg Initiator) rex_clean_trace) = [].
+Proof. exact (conj rex_clean_trace_ok rex_clean_trace_resets). Qed.
+
+(* REFUTED without the hypothesis: the application sends a Logon carrying 141=Y during the handshake (queued, never
+   written); the peer's reset Logon is then accepted without a reset although nothing carrying 141=Y was sent. *)
+Theorem c07_received_reset_logon_refuted :
+  exists c es, c07_check c (combine es (map obs_of (run_trace es (init_sess c)))) = [(2%nat, 709)].
+Proof. exact c07_709_app_reset_logon_refuted. Qed.
+
+(* ---- clause 705: no reset without a cause ---- *)
+(* STEP: with no reset option configured and nothing buffered inbound, from every state whose stash holds only sequence-gated
+   messages and gap fills (invariant TS), an event that is not a cause (a directly processed Logon carrying 141=Y, the
+   ResetSeqTime crossing, an application-sent Logon carrying 141=Y) resets nothing. *)
+Theorem c07_no_reset_without_cause_step : forall s e,
+  TS s -> s_in_buf s = [] -> no_reset_option (s_cfg s) = true -> reset_cause e = false ->
+  ~ In CbStoreReset (s_cbs (step s e)).
+Proof. exact step_no_reset_without_cause. Qed.
+
+(* TRACE LEVEL: the predicate c07_cause_check (Session/SpecCause.v, code 705) reports nothing on any trace of the model;
+   and c07_check itself never reports 705 (its scan has no such clause). *)
+Theorem c07_no_reset_without_cause_on_every_trace : forall c es,
+  c07_cause_check c (combine es (map obs_of (run_trace es (init_sess c)))) = [].
+Proof. exact c07_no_reset_without_cause. Qed.
+
+Theorem c07_check_never_reports_705 : forall c es,
+  free_of [705] (c07_check c (combine es (map obs_of (run_trace es (init_sess c))))) = true.
+Proof. exact c07_check_no_705. Qed.
+
+(* non-vacuity: counters persist across a reconnect (3 / 3), and the store is reset exactly in the three kinds of cause *)
+Example c07_no_reset_without_cause_example :
+  map (fun o => (ob_snd (snd o), ob_tgt (snd o), has_reset (ob_cbs (snd o)), reset_cause (fst o))) (rcx_run (rcx_cfg Acceptor) rcx_trace)
+  = [(1, 1, false, false); (2, 2, false, false); (2, 3, false, false); (3, 3, false, false); (3, 3, false, false);
+     (3, 3, false, false); (3, 1, true, true); (2, 1, true, true); (2, 1, true, true)]
+  /\ c07_cause_check (rcx_cfg Acceptor) (rcx_run (rcx_cfg Acceptor) rcx_trace) = [].
+Proof. exact rcx_trace_resets. Qed.
